@@ -71,6 +71,25 @@ def r1(ctx):
             child = (t, "false" if pol > 0 else "true")
             okk = not any(e in g.reachable([parent], follow_exc=False) for e in ex) and g.exit not in g.reachable([child], follow_exc=False)
         ctx.check("C14.R1", okk, key(f, "parent-returns-child-execs"), site(f), "after the fork the parent can reach exec or the child can return into the old master's loop", "parent returns; child never returns")
+        # ... nor by an exception: a pre_exec hook that raises, or an exec that fails (the binary was just replaced -- that is
+        # what USR2 is for), must not propagate out of reexec() in the child: the caller is the *old master's* main loop, whose
+        # error path stops the workers by pid, unlinks the unix socket file and the pid file -- all of them the old master's
+        for t in tests:
+            pol = _pid_recog(f, "reexec_pid")(t.ast)
+            if pol is None:
+                continue
+            child = (t, "false" if pol > 0 else "true")
+            # (a last-resort clause that logs and then leaves the process is taken at its word: its own log call is not
+            # followed further)
+            last_resort = []
+            for h in [x for x in walk_own(f.node) if isinstance(x, ast.ExceptHandler)]:
+                lst = h.body[-1] if h.body else None
+                if isinstance(lst, ast.Expr) and isinstance(lst.value, ast.Call) and repo.call_target(f.module, f, lst.value) in ("os._exit", "sys.exit"):
+                    last_resort += [(n, "exc") for n in g.nodes if n.ast is not None and any(a is h for a in f.module.ancestors(n.ast))]
+            r = g.reachable([child], follow_exc=True, without_edges=last_resort)
+            ctx.check("C14.R1", g.raise_exit not in r, key(f, "child-never-raises-into-master-loop"), site(f, t),
+                      "in the forked child an exception (pre_exec hook, chdir, a failing exec of a replaced binary) propagates out of reexec() into the main loop inherited from the old master: "
+                      "its error path stops the old master's workers, unlinks its unix socket file and pid file -- a failed upgrade takes the running server down", "child exits on any failure")
 
 
 def _env_keys_written(f):
